@@ -81,6 +81,9 @@ type scenario struct {
 	en        uint64 // extra nonce used by the update check (0: default)
 	unow      int64  // clock at the time of UpdateBlockTime (0: now + 31)
 	diffObs   string // rendered by observe
+	// internal tuning values of the generator, read from the tree and passed to the model
+	mhp uint64 // order key (IEEE bits) of mining.MinHighPriority; 0 = not on the line
+	bho int64  // blockHeaderOverhead; 0 = not on the line
 	dp, hist  string // difficulty parameters and header history (tip first) for worlds with retargeting
 	now        int64
 	addr       bool
@@ -183,6 +186,9 @@ func (s *scenario) line() string {
 	}
 	if s.unow != 0 {
 		fmt.Fprintf(&b, " unow=%d", s.unow)
+	}
+	if s.mhp != 0 {
+		fmt.Fprintf(&b, " mhp=%d bho=%d", s.mhp, s.bho)
 	}
 	if s.dp != "" {
 		fmt.Fprintf(&b, " dp=%s hist=%s", s.dp, s.hist)
@@ -333,6 +339,10 @@ func parseScenario(f []string) *scenario {
 			s.uc = v == "1"
 		case "en":
 			s.en = puint(v)
+		case "mhp":
+			s.mhp = puint(v)
+		case "bho":
+			s.bho = pint(v)
 		case "unow":
 			s.unow = pint(v)
 		case "dp":
@@ -444,6 +454,8 @@ func (s *scenario) deriveFacts() {
 	s.seg = s.world != 1
 	s.csv = s.world != 1
 	s.halving = worldHalving
+	s.mhp = math.Float64bits(mining.MinHighPriority)
+	s.bho = headerOverhead()
 	s.maturity = worldMaturity
 	cb := s.baseCoinbase()
 	s.cbw = blockchain.GetTransactionWeight(cb)
@@ -721,3 +733,7 @@ func (s *stubSource) HaveTransaction(h *chainhash.Hash) bool {
 	_, ok := s.have[*h]
 	return ok
 }
+
+// headerOverhead is the number of bytes the generator reserves for the header
+// and the transaction count (an internal constant of the mining package).
+func headerOverhead() int64 { return mining.VerifConstsC12()["blockHeaderOverhead"] }
